@@ -53,6 +53,8 @@ def kS : Bytes := [0x73]  -- "s"
 def kV : Bytes := [0x76]  -- "v"
 def kGroup : Bytes := [0x67, 0x72, 0x6f, 0x75, 0x70]  -- "group"
 def kN : Bytes := [0x6e]  -- "n"
+def kNatPlus : Bytes := [0x6e, 0x61, 0x74, 0x50, 0x6c, 0x75, 0x73]  -- "natPlus"
+def kNatBytes : Bytes := [0x6e, 0x61, 0x74, 0x42, 0x79, 0x74, 0x65, 0x73]  -- "natBytes"
 def kBase : Bytes := [0x62, 0x61, 0x73, 0x65]  -- "base"
 
 /-- CBOR tags of `internal/tags` -/
@@ -533,6 +535,32 @@ def decSigW {F : Type} [OfNat F 0] [DecidableEq F] (io : ElemIO F) : Item → Op
       match decScalar io r, decScalar io s, decRecId v with
       | some r', some s', some v' => if validSigW ⟨r', s', v'⟩ then some ⟨r', s', v'⟩ else none
       | _, _, _ => none
+    else none
+  | _ => none
+
+/-! ## Paillier public key (`paillier.PublicKey`):
+`{"group": 5016({"n": {"natPlus": {"natBytes": h'…'}}})}`, the modulus as big-endian bytes -/
+
+structure PaillierPK where
+  nBytes : Bytes
+  deriving DecidableEq, Repr
+
+/-- `base.IFCKeyLength` -/
+def ifcKeyLength : Nat := 3072
+
+/-- `paillier.NewPublicKey`: the modulus has at least `IFCKeyLength` bits (`N.TrueLen() ≥ 3072`,
+i.e. `2^3071 ≤ N`) -/
+def validPaillierPK (v : PaillierPK) : Bool :=
+  decide (2 ^ (ifcKeyLength - 1) ≤ beVal v.nBytes) && decide (v.nBytes.length < two64)
+
+def encPaillierPK (v : PaillierPK) : Item :=
+  .map [.text kGroup, .tag tagPaillierGroupUnknownOrder
+    (.map [.text kN, .map [.text kNatPlus, .map [.text kNatBytes, .bytes v.nBytes]]])]
+
+def decPaillierPK : Item → Option PaillierPK
+  | .map [.text k1, .tag tg (.map [.text k2, .map [.text k3, .map [.text k4, .bytes b]]])] =>
+    if k1 = kGroup ∧ tg = tagPaillierGroupUnknownOrder ∧ k2 = kN ∧ k3 = kNatPlus ∧ k4 = kNatBytes then
+      if validPaillierPK ⟨b⟩ then some ⟨b⟩ else none
     else none
   | _ => none
 
